@@ -11,7 +11,7 @@ import (
 // against the schema used as a type.
 func FuzzRegexSchema(f *testing.F) {
 	for _, s := range []string{`/a/`, `//`, `/`, ``, `/\//`, `/\\/x`, `/[a-z]{2,3}/`, `/(a|b)*c/ tail`, `/\x01/`, `/\x{e0001}/`, `/a\/`, `/[/]/`, `/(/`, `/a{2,1}/`,
-		"/ab/\x00ab", "/^a$/\x00b", `/\pL+/`, `/(?i)x/`, `/\Qa/b\E/`, `/.{0,1000}/`, "/é/", "x/a/"} {
+		"/ab/\x00ab", "/^a$/\x00b", `/\pL+/`, `/(?i)x/`, `/\Qa/b\E/`, `/.{0,1000}/`, "/é/", "x/a/", `/[^\x00-\x{10FFFF}]/`, `/a[^\s\S]/`} {
 		f.Add([]byte(s))
 	}
 	f.Fuzz(func(t *testing.T, data []byte) {
